@@ -675,6 +675,15 @@ func HandleUpdateUser(cc *hotline.ClientConn, t *hotline.Transaction) (res []hot
 	// A request with several entries is refused as a whole when the requester lacks the privilege one of them needs:
 	// check every entry before the first one is carried out, so that an error reply never comes with part of the
 	// request done.  (The loop below checks again; an entry may depend on the one before it.)
+	// The whole request is judged by the privileges the requester holds when it arrives: an entry that edits the
+	// requester's own account changes the session's privileges at once, and must not turn a later entry of the same
+	// request into a refusal after the earlier ones have been carried out.
+	var requester hotline.AccessBitmap
+	if cc.Account != nil {
+		requester = cc.Account.Access
+	}
+	allowed := func(access int) bool { return requester.IsSet(access) }
+
 	// What the entries checked so far will have created (true) or removed (false) by the time a later entry runs.
 	planned := map[string]bool{}
 
@@ -700,7 +709,7 @@ func HandleUpdateUser(cc *hotline.ClientConn, t *hotline.Transaction) (res []hot
 
 		switch {
 		case len(subFields) == 1:
-			if !cc.Authorize(hotline.AccessDeleteUser) {
+			if !allowed(hotline.AccessDeleteUser) {
 				return cc.NewErrReply(t, "You are not allowed to delete accounts.")
 			}
 			if f := hotline.GetField(hotline.FieldData, &subFields); f != nil {
@@ -721,12 +730,22 @@ func HandleUpdateUser(cc *hotline.ClientConn, t *hotline.Transaction) (res []hot
 			}
 
 			if present {
-				if !cc.Authorize(hotline.AccessModifyUser) {
+				if !allowed(hotline.AccessModifyUser) {
 					return cc.NewErrReply(t, "You are not allowed to modify accounts.")
 				}
 				planned[existing] = false
-			} else if !cc.Authorize(hotline.AccessCreateUser) {
+			} else if !allowed(hotline.AccessCreateUser) {
 				return cc.NewErrReply(t, "You are not allowed to create new accounts.")
+			} else if accessField := hotline.GetField(hotline.FieldUserAccess, &subFields); accessField != nil {
+				// The other refusal of a create entry: checked here as well, before anything is carried out.
+				var newAccess hotline.AccessBitmap
+				copy(newAccess[:], accessField.Data)
+
+				for i := 0; i < 64; i++ {
+					if newAccess.IsSet(i) && !allowed(i) {
+						return cc.NewErrReply(t, "Cannot create account with more access than yourself.")
+					}
+				}
 			}
 			planned[newLogin] = true
 		}
@@ -751,7 +770,7 @@ func HandleUpdateUser(cc *hotline.ClientConn, t *hotline.Transaction) (res []hot
 
 		// If there's only one subfield, that indicates this is a delete operation for the login in FieldData
 		if len(subFields) == 1 {
-			if !cc.Authorize(hotline.AccessDeleteUser) {
+			if !allowed(hotline.AccessDeleteUser) {
 				return cc.NewErrReply(t, "You are not allowed to delete accounts.")
 			}
 
@@ -809,7 +828,7 @@ func HandleUpdateUser(cc *hotline.ClientConn, t *hotline.Transaction) (res []hot
 			}
 
 			// Account exists, so this is an update action.
-			if !cc.Authorize(hotline.AccessModifyUser) {
+			if !allowed(hotline.AccessModifyUser) {
 				return cc.NewErrReply(t, "You are not allowed to modify accounts.")
 			}
 
@@ -870,7 +889,7 @@ func HandleUpdateUser(cc *hotline.ClientConn, t *hotline.Transaction) (res []hot
 				}
 			}
 		} else {
-			if !cc.Authorize(hotline.AccessCreateUser) {
+			if !allowed(hotline.AccessCreateUser) {
 				return cc.NewErrReply(t, "You are not allowed to create new accounts.")
 			}
 
@@ -882,7 +901,7 @@ func HandleUpdateUser(cc *hotline.ClientConn, t *hotline.Transaction) (res []hot
 			// Prevent account from creating new account with greater permission
 			for i := 0; i < 64; i++ {
 				if newAccess.IsSet(i) {
-					if !cc.Authorize(i) {
+					if !allowed(i) {
 						return cc.NewErrReply(t, "Cannot create account with more access than yourself.")
 					}
 				}
